@@ -233,6 +233,11 @@ class SpecMixin:
             if nm == "ev":
                 # ev(k) : k-th external/contract call event of this path (python int, may be negative)
                 k = ast.literal_eval(n.args[0])
+                if not (-len(self.trace) <= k < len(self.trace)):
+                    dummy = {"name": "?", "callee": fresh("noev", Val), "result": fresh("noev", Val),
+                             "args": [fresh("noev", Val) for _ in range(6)], "kwargs": {},
+                             "heap_before": self.heap, "heap_after": self.heap}
+                    return py(("event", dummy), "event")
                 return py(("event", self.trace[k]), "event")
             if nm == "nkeys":
                 d = self.eval(n.args[0], frame)
